@@ -7,7 +7,9 @@
    compatible with the log so far (closed under the hidden steps, i.e. those whose [observe] is None),
    and projects the summary from the final states; an unreplayable log gives [v_bad] (a mismatch).
    [verdict_lifecycle] judges the observed log + summary against the text of C17 directly, without
-   the LTS. *)
+   the LTS.
+   Serving the same Server value a second time (stream lifecycle_reserve) is covered by that verdict
+   only, not by the LTS: see [run_reserve]. *)
 Require Import MB.GoSem MB.Val MB.Entry MB.LifecycleModel.
 From Coq Require Import String.
 Notation length := List.length (only parsing).
@@ -488,8 +490,29 @@ Definition verdict_flood_C17 (a : list val) (o : val) : N :=
   | _ => VIOLATES
   end.
 
+(* Stream lifecycle_reserve: the SAME Server value served a second time (first Serve ended by cancelling
+   its context while one of its connections is still alive; Serve again on a new listener; Shutdown).
+   The LTS models ONE call of serve, so re-serve is NOT covered by the LTS (nor by the theorems of
+   Properties/C17.v): the model side accepts the observed summary as it is (5th argument), and the run
+   is judged by the executable statement of C17 alone -- [verdict_lifecycle_C17] on the observed log:
+   a Shutdown that returned nil (or the listener's close error) has closed every connection Accept had
+   returned, whichever Serve call accepted it; no started handler is left without its reply; Serve
+   returned ErrServerClosed within the bound; accept-callback counts are exact; close callbacks once. *)
+Definition run_reserve (a : list val) : val :=
+  match a with
+  | [_; _; _; _; sm] => v_ok [sm]
+  | _ => v_bad
+  end.
+Definition verdict_reserve_C17 (a : list val) (o : val) : N :=
+  match a with
+  | [k; s; e; x; _] => verdict_lifecycle_C17 [k; s; e; x] o
+  | _ => VIOLATES
+  end.
+
 Definition table_lifecycle : list entry :=
   [ {| e_name := "lifecycle"; e_run := run_lifecycle4;
        e_verdict := fun p a o => if (p =? 17)%N then verdict_lifecycle_C17 a o else NOT_JUDGED |};
+    {| e_name := "lifecycle_reserve"; e_run := run_reserve;
+       e_verdict := fun p a o => if (p =? 17)%N then verdict_reserve_C17 a o else NOT_JUDGED |};
     {| e_name := "lifecycle_flood"; e_run := run_flood;
        e_verdict := fun p a o => if (p =? 17)%N then verdict_flood_C17 a o else NOT_JUDGED |} ].
